@@ -194,4 +194,50 @@ def checkPx (g : Grid) (lab : Px → Nat) (n : Nat) (cert : Cert) (p : Px) : Boo
 def checkLabelling (g : Grid) (lab : Px → Nat) (n : Nat) (cert : Cert) : Bool :=
   (allPx g.H g.W).all (checkPx g lab n cert)
 
+/-! ### glue for the pieces regenerated from `find_islands` (translator/targets/C02.py → `Gen.C02`)
+
+The regenerated pieces are passed in as arguments, so this file stays independent of the generated one:
+`seedScope` (1 = the seed comparison ranges over the island's own pixels, 0 = over its whole box),
+`ownLabel i` / `maskLabel i` (the label selecting own pixels / used in the island mask in loop iteration `i`),
+`floodTest` / `seedTest` (the two threshold comparisons, over `Int`), `floodFinite` (1 = the flood mask also
+requires a finite signal-to-noise). -/
+
+/-- hand fallbacks, used when the slicer reports a piece UNTRANSLATABLE -/
+def floodTestHand (s clip : Int) : Bool := decide (clip ≤ s)
+def seedTestHand (s clip : Int) : Bool := decide (clip < s)
+def floodFiniteHand (_i : Nat) : Nat := 1
+def seedScopeHand (_i : Nat) : Nat := 1
+def ownLabelHand (i : Nat) : Nat := i + 1
+def maskLabelHand (i : Nat) : Nat := i + 1
+
+/-- the loop body with the regenerated selectors: own pixels selected by `ownL`, masked by `maskL`, seed
+    comparison over the own pixels iff `scope = 1` -/
+def islandInG (scope ownL maskL : Nat) (g : Grid) (lab : Px → Nat) (inside : Option (Px → Bool)) (fb : Box) :
+    Option Island :=
+  let lbl := (boxPx fb).filter (fun p => lab p == ownL)
+  let own := (boxPx fb).filter (fun p => g.A p && lab p == maskL)
+  let seedSet := if scope == 1 then lbl else boxPx fb
+  if seedSet.any g.Sd && regionOK inside lbl then
+    (boxOf own).map (fun b => { box := b, pixels := own, frame := fb })
+  else none
+
+/-- `find_islands` assembled from the regenerated pieces: iteration `k` of `for i in range(n)` -/
+def findIslandsGen (seedScope ownLabel maskLabel : Nat → Nat) (g : Grid) (lab : Px → Nat) (n : Nat)
+    (inside : Option (Px → Bool)) : List Island :=
+  (List.range n).filterMap (fun k =>
+    (boxOf (labelled g lab (ownLabel k))).bind (islandInG (seedScope k) (ownLabel k) (maskLabel k) g lab inside))
+
+/-- flood / seed masks of an integer-valued signal-to-noise map (`none` = blank / non-finite) through the
+    regenerated comparisons; a non-finite pixel is excluded iff `floodFinite = 1` (otherwise `blankOn` says what
+    the comparison does with it, which is what the pinned code left to IEEE: `inf >= clip` is true) -/
+def gridOfSnr (floodTest seedTest : Int → Int → Bool) (floodFinite : Nat) (blankOn : Px → Bool) (H W : Nat)
+    (snr : Px → Option Int) (flood seed : Int) : Grid :=
+  { H := H, W := W,
+    A := fun p => match snr p with
+      | some s => floodTest s flood
+      | none => if floodFinite == 1 then false else blankOn p,
+    Sd := fun p => match snr p with
+      | some s => seedTest s seed
+      | none => false }
+
 end Aegean.Model.C02
